@@ -205,6 +205,7 @@ RD = dict(READERS)
 ONE = ['str', 'sssr', 'atoms_order', 'connected_components', 'bonds_count', 'brutto', 'chiral', 'stereogenic_tetrahedrons',
        'atoms_rings_sizes', 'hash', 'smiles_atoms_order', 'molecular_mass']
 PATTERNS = ['ALL', 'REV', 'NONE'] + ['ONE:' + k for k in ONE]
+PATTERNS_QUICK = ['ALL', 'NONE'] + ['ONE:' + k for k in ONE[:9]]
 
 
 def read(m, names):
@@ -215,6 +216,10 @@ def read(m, names):
         except Exception as e:
             out[k] = ('EXC', type(e).__name__)
     return out
+
+
+GRAPH_READS = ['sssr', 'rings_count', 'atoms_rings_sizes', 'connected_components', 'bonds_count', 'not_special_connectivity', 'skin_graph',
+               'int_adjacency']
 
 
 def touch(m, names):
@@ -316,6 +321,11 @@ def enabled(m, cfg):
             ev.append(('tx', (s, t)))
             ev.append(('tx', (t, s)))
             ev.append(('tx_fail', (s, t)))
+    for s in structural:
+        ev.append(('tx_fail', (s, ('read',))))
+        ev.append(('tx_fail', (('read',), s, ('read',))))
+        ev.append(('tx', (s, ('read',))))
+        ev.append(('tx', (('read',), s)))
     for kind in () if not atoms else ('bond_missing', 'dup_atom', 'bond_exists', 'self_loop', 'del_missing_bond', 'del_missing_atom', 'bad_charge',
                  'remap_overlap', 'bad_element'):
         ev.append(('bad', kind))
@@ -338,6 +348,8 @@ def _inner(m, e):
         m.atom(e[1]).is_radical = not m.atom(e[1]).is_radical
     elif k == 'remap':
         m.remap(dict(e[1]))
+    elif k == 'read':  # derived values that depend on the graph only may be read inside an open transaction
+        touch(m, GRAPH_READS)
     else:
         raise RuntimeError('unknown inner event %r' % (e,))
 
@@ -583,7 +595,7 @@ def expand(item):
     for e in evs:
         pats = ['ALL']
         if ndev < cfg['devbound']:
-            pats = PATTERNS
+            pats = cfg.get('patterns', PATTERNS)
         for pat in pats:
             nd = ndev + (pat != 'ALL')
             acc.transitions += 1
@@ -614,9 +626,9 @@ def _t(x):
     return x
 
 
-def bfs(pmap, seeds, depth, devbound, maxa, maxdec, label):
+def bfs(pmap, seeds, depth, devbound, maxa, maxdec, label, patterns=None):
     acc = Acc()
-    cfg = {'maxa': maxa, 'maxdec': maxdec, 'devbound': devbound}
+    cfg = {'maxa': maxa, 'maxdec': maxdec, 'devbound': devbound, 'patterns': patterns or PATTERNS}
     seen = {}
     frontier = []
     for s in seeds:
@@ -662,7 +674,7 @@ def stage_default(pmap, tier, seed):
 def stage_dev1(pmap, tier, seed):
     if tier == 'thorough':
         return bfs(pmap, SEEDS_THOROUGH, 3, 1, 5, 2, 'dev1')
-    return bfs(pmap, SEEDS_QUICK, 2, 1, 4, 1, 'dev1')
+    return bfs(pmap, SEEDS_QUICK, 2, 1, 4, 1, 'dev1', patterns=PATTERNS_QUICK)
 
 
 def stage_dev2(pmap, tier, seed):
@@ -675,7 +687,7 @@ def plan(tier, seed):
                 Stage('BFS <=1 read deviation depth 3', stage_dev1, None, 'all histories <=3 events with <=1 non-default read pattern (reversed/none/exactly-one-of-12)'),
                 Stage('BFS <=2 read deviations depth 3', stage_dev2, None, 'all histories <=3 events, <=4 atoms, with <=2 non-default read patterns')]
     return [Stage('BFS default reads depth 3', stage_default, None, 'all histories <=3 events, <=4 atoms, <=1 decorated atom, all caches read after every event'),
-            Stage('BFS <=1 read deviation depth 2', stage_dev1, None, 'all histories <=2 events, <=4 atoms, with <=1 non-default read pattern (reversed/none/exactly-one-of-12)')]
+            Stage('BFS <=1 read deviation depth 2', stage_dev1, None, 'all histories <=2 events, <=4 atoms, with <=1 non-default read pattern (none/exactly-one-of-9)')]
 
 
 def replay(rec):
